@@ -379,6 +379,10 @@ def alloc_key_of(key):
     return None
 
 
+def prog_funcs(X):
+    return X.w.prog.funcs
+
+
 def bind_args(X, params, argv):
     env = {}
     for (pn, pt), a in zip(params, argv):
@@ -428,6 +432,16 @@ def contract_call(X, ins, key, c, argv, iface_sig=None):
         for (ast, txt) in (c['assigns'] or []):
             for (hk, loc) in assign_targets(X, ast, ev):
                 targets.setdefault(hk, []).append(loc)
+        if c['assigns'] is None and key in prog_funcs(X) and prog_funcs(X)[key]['blocks']:
+            # a contract without an assigns clause says nothing about the frame: everything the body (and its
+            # callees, through their own contracts) may write is havocked
+            from .modset import func_modset
+            saved = V.contracts['funcs'].pop(key)
+            try:
+                for hk in func_modset(V, key, [X.fnkey, key]):
+                    targets.setdefault(hk, []).append(None)
+            finally:
+                V.contracts['funcs'][key] = saved
         for hk in set(list(targets.keys()) + list(fresh_keys.keys())):
             locs = targets.get(hk)
             oldv = pre.get(hk)
